@@ -22,6 +22,21 @@ Space
                               in thorough), plus m == 0 with y = 1.2 (thorough: g == 0 with y = -0.5 too); CGMY g = 1e-3,
                               c = 1e-8; HEM p = 1e-9, intensity = 0; Merton sigma_j = 1e-3 (mu_j = 0 and mu_j = 0.3),
                               intensity = 0; VG nu = 1e-3 and sigma = 1e-3
+  near        parameters NEXT TO every special value the anchored code compares a parameter with (only CGMY does: y < -1, y == 0,
+              y < 0, y >= 0, y > 0, y == 1, y >= 1, y < 1, y > 1, the pole of gamma(2 - y) at 2): y = s +- d for s in {-1, 0, 1} and
+              2 - d, d in {two ulps (next to 0: 2^-52), 1e-6, 1e-5, 1e-4}; (c, g, m) = (0.5, 6, 3.5) [thorough: also (1, 15, 20)];
+              n = 0..5, every route, short truncation menu; the values 1e-6 away from 1 also as "reinit" twins. Such a value is a
+              legal value of the neighbouring branch and must be computed by that branch's formula (not by the special value's:
+              `np.isclose(y, 1.0)`). Relative tolerance 1e-7 instead of 1e-9 (spec key "rtol"): the general incomplete-gamma
+              expressions divide two cancelling terms by y, y - 1, 1 - y and lose about 1e-16 / distance; measured on the unchanged
+              tree (table next to NEAR_NOT_JUDGED). The (special value, distance, n) at which the unchanged tree itself keeps fewer
+              than 7 digits (two ulps from 0: mass; two ulps from 1: mass and first moment - O(1) to O(1e6) relative, negative
+              masses -; two ulps from 2: mass; y = 1.000001 with g, m = 15, 20: mass) are enumerated and counted
+              `near_special_ill_conditioned_not_judged`, not judged: a recorded weakness of the closed forms.
+  high n      moments of order 21, 22, 25, 30 (beyond 12! = int32, 20! = int64, 22! = exact double: VG hands n - 1 to the helper) of
+              directly constructed Levy models on all pairs of E, every route, ties, argument forms, short truncation menu:
+              quick every VG spec (menu, edge, wide, boundary) and the first spec of every other family / branch of y, thorough
+              every directly constructed Levy spec taken to the larger orders at all
   histories   every model of the menu is judged as freshly constructed AND as reached through each construction history
               ("via", see `_build`); the property quantifies over models, not over how they were built:
                 reinit       mc.alphabets.with_reinit: donor parameter object deep-copied, every attribute re-assigned,
@@ -83,7 +98,8 @@ Space
   tools       rpylib.tools.integral.integral_xn_exp_minus_x(n, a, b, alpha) for alpha in {0.1, 0.7, 2.4, 7}, n <= 5, same E;
               each (alpha, n) twice: every interval evaluated alone ("fresh"), and with the same interval evaluated for
               another alpha, another n, the same arguments and alpha/2 just before ("interleaved": a remembered result);
-              fresh pass also n in {8, 13} and the argument forms of the helper (usual: keywords, Python floats): end points as
+              fresh pass also n in {8, 13, 20, 21, 22, 25, 30} (beyond every integer width a factorial can wrap in; reference
+              mpmath at 30 digits, relative tolerance 1e-9) and the argument forms of the helper (usual: keywords, Python floats): end points as
               ints / numpy ints / mixed / numpy floats / 0-d arrays / -0.0, positional call, integer alpha as int, n as numpy int;
               every pass also the degenerate intervals [e, e] (two objects; e finite, 0 also written -0.0): exactly 0
 
@@ -151,7 +167,9 @@ Undamped CGMY (g == 0 or m == 0, spec flag "boundary"; accepted by the `positive
 
 Not covered / outside the alphabet: a > b; [e, e] with e infinite; intervals on which the n-th
   moment diverges (at 0 or in a power-law tail); odd n sign on straddling intervals; parameter values and end points off the
-  lattice; n > 5 except 8 / 12 on directly constructed models; one-element arrays / lists as end points of the measure routes
+  lattice; n > 5 except 8 / 12 / 21 / 22 / 25 / 30 on directly constructed models; parameters within two ulps of y = 0, 1, 2 for
+  the routes listed in NEAR_NOT_JUDGED (ill-conditioned on the unchanged tree); g, m next to 0 other than g = 1e-3 (power-law-like
+  tails of length 1/g: the quadrature oracle and the library's quadrature fall-back both lose accuracy); one-element arrays / lists as end points of the measure routes
   and 0-d arrays for `mass` (rejected by the unchanged tree: TypeError in scipy quad, IndexError); float32 end points (not the
   same numbers); a list / array handed to truncate_levy_measure and modified by the caller afterwards (the measure keeps the
   object it was given; the statement is silent); copy.copy of a model (shares the triplet by construction); CGMY with
@@ -182,7 +200,8 @@ RULE = (
     "(single and nested truncations, in place and copy-then-truncate, the truncation interval in every argument form; plus all "
     "triples for additivity, plus every argument form of the end points on every route against the usual form, plus the "
     "degenerate intervals - [0, 0] in every written form for every model and n -, plus the helper integral for all alpha x n x pairs, fresh and interleaved with other arguments and "
-    "in every argument form); models = menu M1 + edge, wide-jump and boundary-parameter models; a case (model, history, n) is "
+    "in every argument form); models = menu M1 + edge, wide-jump and boundary-parameter models + CGMY with y next to every special "
+    "value of the code (2 ulps, 1e-6, 1e-5, 1e-4 either side); orders 0..5, 8, 12 and 21, 22, 25, 30; a case (model, history, n) is "
     "non-trivial when at least one library value was compared with the quadrature of the model's own density; distinct = "
     "distinct case dict"
 )
@@ -290,8 +309,14 @@ BOUNDARY_SPECS_THOROUGH = [
     {"family": "cgmy", "exp": False, "ns": NS_SMALL, "params": {"c": 1.0, "g": 1e-3, "m": 1e-3, "y": 0.5}},
 ]
 NS = [0, 1, 2, 3, 4, 5]
-NS_TOOLS_LARGE = [8, 13]  # tools: beyond every small-integer case of the helper
+# tools: beyond every small-integer case of the helper AND beyond every integer-width threshold of its factorials
+# (12! is the last factorial in int32, 20! the last in int64, 22! the first whose float is not exact: orders 20, 21, 22, 25, 30)
+NS_TOOLS_LARGE = [8, 13, 20, 21, 22, 25, 30]
 NS_MODEL_LARGE = [8, 12]  # models: directly constructed ones only (quick: 8, Levy models; thorough: both, every fresh model)
+# HIGH ORDERS ("n = 0,1,2,3,..." is every order): moments of order 21, 22, 25, 30 (VG hands order n - 1 to the helper: tool orders
+# 20, 21, 24, 29) of directly constructed Levy models - quick: every VG spec of every menu and the first spec of every other
+# family / branch of y; thorough: every directly constructed Levy spec that is taken to the larger orders at all
+NS_MODEL_HIGH = [21, 22, 25, 30]
 ALPHAS = [0.1, 0.7, 2.4, 7.0]
 
 # ---- argument forms ---------------------------------------------------------------------------------------------------
@@ -311,6 +336,61 @@ TRUNC_FORMS = ["int", "npint", "npfloat", "list", "array", "int-array"]
 
 RTOL_CLOSED, ATOL_CLOSED_REL = 1e-9, 1e-13
 RTOL_QUAD, ATOL_QUAD = 1e-7, 5e-8
+_CASE_RTOL = [RTOL_CLOSED]  # relative tolerance of the closed forms in the current case ("rtol" of the spec; see NEAR_SPECS)
+
+# ---- parameters NEXT TO a special value ------------------------------------------------------------------------------------
+# every comparison of a parameter with a constant that is visible in the anchored code selects a formula: CGMY y < -1 (flag),
+# y == 0 / y < 0 / y >= 0 / y > 0 (mass: exponential integral, gamma function, divergence), y == 1 / y >= 1 / y < 1 / y > 1
+# (first moment: exponential integral; mass: recursion; flag; quadrature points), the pole of gamma(2 - y) at y = 2, g == 0 / m == 0
+# (second moment across the origin). The other families compare no parameter with a constant. A value NEXT TO the special one is a
+# legal value of the neighbouring branch (a calibration that wanders around 1 produces y = 0.999992) and must be computed
+# by that branch's formula. Distances: two ulps ("2ulp"; next to 0: 2^-52), 1e-6, 1e-5, 1e-4, either side (y = 2 from below).
+# Relative tolerance of these specs: 1e-7 ("rtol"), because the general incomplete-gamma expressions divide two cancelling terms by
+# y, y - 1: MEASURED on the unchanged tree (relative error against 30-digit quadrature, intervals away from the origin),
+#   first moment near y = 1:  |y-1| = 1e-4: 2e-9, 1e-5: 2e-8 (far tail) / 1e-9, 1e-6: 7e-8 (far tail), 1e-7: 2e-6, 2 ulps: O(1) to O(100)
+#   mass near y = 0:          |y| = 1e-4: 1e-7 (far tail, u h = 40) / 1e-9, 1e-5: 5e-7 / 1e-8, 1e-6: 7e-6 / 1e-7, 2^-52: O(1e4)
+#   mass near y = 1:          1e-4: 9e-7 / 1e-9, 1e-5: 2e-5 / 8e-8, 1e-6: 3e-4 / 1e-6, 2 ulps: O(1e6)
+#   mass near y = 2:          1e-4: 2e-6 / 3e-10, 1e-5: 3e-6 / 4e-8, 1e-6: 3e-5 / 5e-7, 2 ulps: O(1e4)
+#   everything else (first moment near 0 and 2, second moment, all orders near y = -1): 1e-13 or quadrature accuracy
+# (the loss is absolute, of the order 1e-16 / distance of the antiderivative at the nearer end point; the comparison
+# has the absolute term 1e-13 S, so far tails do not count). NEAR_NOT_JUDGED lists the (special value, distance, n) at which the
+# unchanged tree is not accurate to 1e-7 in that sense: they are enumerated, counted
+# `near_special_ill_conditioned_not_judged` and noted, not evaluated (a recorded weakness of the closed forms, reported).
+NEAR_RTOL = 1e-7
+NEAR_DISTANCES = ["2ulp", "1e-6", "1e-5", "1e-4"]
+CGMY_Y_SPECIAL = [(1.0, (-1, +1)), (0.0, (-1, +1)), (2.0, (-1,)), (-1.0, (-1, +1))]
+NEAR_CGM = [(0.5, 6.0, 3.5), (1.0, 15.0, 20.0)]  # quick: the first
+# (special value, distance) -> moment orders at which the unchanged tree loses more than 1e-7 (filled from the measurement)
+# n -> None (every (c, g, m)) or the list of (c, g, m) concerned. Measured with the comparison of this module (1e-7 |ref| + 1e-13 S):
+# everything else is silent on the unchanged tree, in particular the first moment 1e-6 away from 1 and the mass 1e-6 away from 0.
+NEAR_NOT_JUDGED = {
+    (0.0, "2ulp"): {0: None},  # mass: (...)/(y h^y), numerator = rounding noise: O(1) wrong, negative masses
+    (1.0, "2ulp"): {0: None, 1: None},  # first moment: (...)/(y - 1) likewise; mass: recursion to y - 1 = 4e-16 / division by 1 - y
+    (2.0, "2ulp"): {0: None},  # mass: recursion to y - 1 = 1 - 4e-16 < 1, then division by 1 - (y - 1)
+    (1.0, "1e-6"): {0: [(1.0, 15.0, 20.0)]},  # mass of y = 1.000001 with g, m = 15, 20: 3e-4 relative in the tails, 2e-7 near the origin
+}
+
+
+def _near_value(special, side, dist):
+    if dist == "2ulp":
+        if special == 0.0:
+            return side * 2.0 ** -52
+        x = special
+        for _ in range(2):
+            x = math.nextafter(x, side * INF)
+        return x
+    return special + side * float(dist)
+
+
+def near_specs(thorough):
+    out = []
+    for (c, g, m) in (NEAR_CGM if thorough else NEAR_CGM[:1]):
+        for special, sides in CGMY_Y_SPECIAL:
+            for dist in NEAR_DISTANCES:
+                for side in sides:
+                    out.append({"family": "cgmy", "exp": False, "rtol": NEAR_RTOL, "near": [special, dist],
+                                "params": {"c": c, "g": g, "m": m, "y": _near_value(special, side, dist)}})
+    return out
 
 
 # ----------------------------------------------------------------------------------------------------------------------
@@ -387,14 +467,29 @@ def cases(tier):
     # (quick: the side alternates along the list of variants)
     shorts = ([menu(truncs[:1] + [one[k]], nested[1:2], [[truncs[0]]], tforms_short) for k in (0, 1)] if not thorough
               else [menu(truncs[:3] + one[:2], nested[:3] + none[:1], [[truncs[0]], nested[1], [one[1]]], tforms_short)] * 2)
+    # parameters next to every special value of the anchored code (module constants NEAR_*): directly constructed, short
+    # truncation menu; the values 1e-6 away from y = 1 also as "reinit" twins (the calibration route that produces them)
+    near = [dict(s, menu="short") for s in near_specs(thorough)]
+    variants += near + [dict(s, via="reinit") for s in near if s["near"] == [1.0, "1e-6"]]
     for pos, spec in enumerate(variants):
         short = shorts[pos % 2]
         ns = list(spec.get("ns", NS))
-        if not spec.get("via") and "ns" not in spec and not spec.get("boundary") and (thorough or not spec.get("exp")):
+        if not spec.get("via") and "ns" not in spec and not spec.get("boundary") and not spec.get("near") and (thorough or not spec.get("exp")):
             ns += NS_MODEL_LARGE if thorough else NS_MODEL_LARGE[:1]
         for n in ns:
             out.append({"sub": "model", "model": spec, "n": n, "ends": "wide", "forms": "all" if thorough else "quick",
-                        "trunc_menu": short if spec.get("via") else full})
+                        "trunc_menu": short if (spec.get("via") or spec.get("menu") == "short") else full})
+    # HIGH ORDERS: directly constructed Levy models at the orders beyond every integer-width threshold (NS_MODEL_HIGH)
+    seen = set()
+    for spec in specs + edges:
+        if spec.get("exp") or spec.get("via") or "ns" in spec or spec.get("boundary"):
+            continue
+        first = fam_label(spec) not in seen
+        seen.add(fam_label(spec))
+        if thorough or first or spec["family"] == "vg":
+            for n in NS_MODEL_HIGH:
+                out.append({"sub": "model", "model": spec, "n": n, "ends": "wide", "forms": "all" if thorough else "quick",
+                            "trunc_menu": shorts[0]})
     return out
 
 
@@ -721,7 +816,7 @@ def _build(sh, spec, n):
 def _tol(ref_abs, scale, used_quad):
     if used_quad:
         return RTOL_QUAD * ref_abs + ATOL_QUAD
-    return RTOL_CLOSED * ref_abs + ATOL_CLOSED_REL * scale
+    return _CASE_RTOL[0] * ref_abs + ATOL_CLOSED_REL * scale
 
 
 def _local_exponent(nu, side, eps=1e-8):
@@ -793,6 +888,15 @@ def _sub_model(sh, case):
     fam = fam_label(spec)
     vsfx = _via_sfx(spec)
     _install_quad_probe()
+    _CASE_RTOL[0] = float(spec.get("rtol", RTOL_CLOSED))
+    if spec.get("near"):
+        sh.cls(f"near-special:{spec['family']}:{spec['near'][0]}:{spec['near'][1]}")
+        skip = NEAR_NOT_JUDGED.get((spec["near"][0], spec["near"][1]), {})
+        if n in skip and (skip[n] is None or tuple(spec["params"][k] for k in "cgm") in skip[n]):
+            sh.count("near_special_ill_conditioned_not_judged")
+            sh.note(f"{_label(spec)}: n={n}: the closed form is ill-conditioned this close to y = {spec['near'][0]} on the unchanged "
+                    f"tree (measured: less than 7 digits); not judged")
+            return
     model = _build(sh, spec, n)
     sh.cls(f"via:{spec.get('via') or 'direct'}")
     nu = model.levy_triplet.nu
